@@ -109,7 +109,48 @@ def fd_error_bounds(D, z, y, EPS=1e-8):
     return float(max(b_obj, b_con, b_hes))
 
 
-def run_solve_with(case, prob_wrap, check):
+class WorkClock:
+    """Stands in for the `time` module inside pygradflow.timer: one second passes per callback evaluation of the
+    problem (time is spent in the user's functions), nothing else advances it."""
+
+    def __init__(self):
+        import time as _t
+
+        self.T0 = float(int(_t.time()))
+        self.ticks = 0
+
+    def time(self):
+        return self.T0 + self.ticks
+
+    __call__ = time
+
+
+class TimedProblem(mon.ProxyProblem):
+    def __init__(self, inner, clock):
+        super().__init__(inner)
+        self.clock = clock
+
+    def _tick(self, v):
+        self.clock.ticks += 1
+        return v
+
+    def obj(self, x):
+        return self._tick(self.inner.obj(x))
+
+    def obj_grad(self, x):
+        return self._tick(self.inner.obj_grad(x))
+
+    def cons(self, x):
+        return self._tick(self.inner.cons(x))
+
+    def cons_jac(self, x):
+        return self._tick(self.inner.cons_jac(x))
+
+    def lag_hess(self, x, y):
+        return self._tick(self.inner.lag_hess(x, y))
+
+
+def run_solve_with(case, prob_wrap, check, time_limit=None):
     from pygradflow.params import DerivCheck
 
     p = work.prepare(case, record_sites=False, keep_args=False)
@@ -118,7 +159,13 @@ def run_solve_with(case, prob_wrap, check):
     p.params.deriv_tol = case.get("deriv_tol", 1e-4)
     p.params.deriv_check = {"off": DerivCheck.NoCheck, "all": DerivCheck.CheckAll, "first": DerivCheck.CheckFirst,
                             "second": DerivCheck.CheckSecond}[check]
-    out = mon.run_solve(prob, p.params, p.x0, p.y0)
+    clock = None
+    if time_limit is not None:
+        clock = WorkClock()
+        prob = TimedProblem(prob, clock)
+        p.params.time_limit = float(time_limit)
+    out = mon.run_solve(prob, p.params, p.x0, p.y0, clock=clock)
+    out.clock_ticks = clock.ticks if clock else None
     return p, out
 
 
@@ -180,6 +227,30 @@ def run_case(case):
             else:
                 nt += 1
                 bump("correct_runs_identical_shared_structure", int(case.get("policy") == "shared"))
+        # the time spent in the check does not count against the solve: with a clock that advances by one second
+        # per callback evaluation and a time limit that ends the unchecked solve part-way, the checked solve stops
+        # at the same point
+        if case["gseed"][-1] % 2 == 0:
+            _, free = run_solve_with(case, None, "off", time_limit=1e9)
+            total = free.clock_ticks or 0
+            if total >= 8 and free.result is not None:
+                lim = int(total * float(rng.uniform(0.2, 0.95)))
+                _, a = run_solve_with(case, None, "off", time_limit=lim)
+                _, b = run_solve_with(case, None, "all", time_limit=lim)
+                evals += 3
+                bump("timed_pairs_compared")
+                if a.result is not None:
+                    bump("timed_pairs_stopped_by_time_limit", int(a.result.status.name == "TimeLimit"))
+                ok = (a.result is None) == (b.result is None) and not isinstance(b.exc, DerivError)
+                if ok and a.result is not None:
+                    Ta, Tb = a.trace.trials, b.trace.trials
+                    ok = (a.result.status == b.result.status and len(Ta) == len(Tb)
+                          and all(work.same_trial(u, v) for u, v in zip(Ta, Tb))
+                          and np.array_equal(a.result.x, b.result.x) and np.array_equal(a.result.y, b.result.y))
+                if not ok:
+                    bad("check-alters-solve", "under a time limit of %d callback evaluations the solve after a passed "
+                        "derivative check ends differently (%s) from the solve without the check (%s)"
+                        % (lim, work.outcome_class(b), work.outcome_class(a)))
     else:
         bump("bases_outside_well_scaled_class")
     # ---- (b) single corrupted entries
@@ -263,7 +334,7 @@ def finalize(agg, tier):
     return {
         "rule": "NLP specs (softplus objective terms, quadratic rows, slacks, optional custom power-of-two scaling), n<=6, "
                 "random in-bounds starts incl. on-bound components, 30% of the bases unscaled with equality rows only and matrices that share one set of non-canonically ordered index arrays (structure set up once by the user), random or zero starting multipliers; per base problem: "
-                "check modes All/First/Second with correct derivatives (only if the computed forward-difference error bound "
+                "check modes All/First/Second with correct derivatives (and, for every second base, a pair of runs without / with the check under a time limit on a clock that advances with every callback evaluation) (only if the computed forward-difference error bound "
                 "is <= a tenth of the tolerance) and up to 40 single-entry corruptions (every gradient / Jacobian / Hessian position when there "
                 "are fewer) for default and non-default (deriv_pert, deriv_tol) pairs, with magnitude 1x..30x (30%: up to 1e4x) the safe threshold 3(atol+rtol|entry|), both signs, 30% of the matrix corruptions as an entry missing from the sparsity pattern; 25% of them under a "
                 "partial check mode; non-trivial = comparison carried out and as expected; distinct by construction",
@@ -271,7 +342,7 @@ def finalize(agg, tier):
                    "corrupt_grad": 200, "corrupt_jac": 300, "corrupt_hess": 500, "pinpointed": 1500,
                    "corruptions_outside_checked_part": 100, "corruptions_entry_missing_from_pattern": 100,
                    "non_default_checker_parameters": 40, "correct_runs_identical_shared_structure": 30,
-                   "bases_shared_structure_csc": 5},
+                   "bases_shared_structure_csc": 5, "timed_pairs_compared": 20, "timed_pairs_stopped_by_time_limit": 10},
         "assumptions": ["well-scaled class: eps/2*|2nd derivative| + 4*macheps*|f|/eps + 2*macheps*|x_i||d|/eps <= 1e-5 for "
                         "all checked functions of the transformed problem at the start (magnitudes as sums of absolute "
                         "values of terms); location is only judged for bases in that class"],
